@@ -131,6 +131,47 @@ func deepAndBig(out *Out, t *Target, r *vschema.Rand, tier string) {
 			out.Count("deep_cases")
 		}
 	}
+	// over-read probe: N map entries of declared length 1 that hold only a key tag; their "length"
+	// varint (3 bytes, value = everything that follows, ≡ 5 mod 8 so that it also parses as an unknown
+	// fixed32 tag) and 4 filler bytes sit OUTSIDE the entry. A decoder that bounds an entry's records by
+	// the whole input copies the rest of the input once per entry (quadratic; nested: exponential).
+	for _, f := range t.S.Msgs[0].Fields {
+		if f.Shape != vschema.Map || f.Key != vschema.String {
+			continue
+		}
+		const N = 300
+		tagb := protowire.AppendTag(nil, protowire.Number(f.Num), protowire.BytesType)
+		tail := protowire.AppendTag(nil, 536870000, protowire.BytesType)
+		tail = protowire.AppendBytes(tail, make([]byte, 12000))
+		group := len(tagb) + 2 + 3 + 4
+		total := group*N + len(tail)
+		bs := make([]byte, 0, total)
+		for j := 0; j < N; j++ {
+			rem := total - (group*j + len(tagb) + 2 + 3)
+			v := rem
+			for v%8 != 5 {
+				v--
+			}
+			bs = append(bs, tagb...)
+			bs = append(bs, 0x01, 0x0a, byte(v&0x7f)|0x80, byte((v>>7)&0x7f)|0x80, byte(v>>14))
+			bs = append(bs, 0x10, 0x00, 0x10, 0x00)
+		}
+		bs = append(bs, tail...)
+		msg := t.B.ToMessage(0, vval.Empty(t.S, 0))
+		var ms0, ms1 runtime.MemStats
+		runtime.ReadMemStats(&ms0)
+		p, pm := guard(func() { _ = proto.Unmarshal(bs, msg) })
+		runtime.ReadMemStats(&ms1)
+		out.Case(fmt.Sprintf("overread:%s:%d", t.Full, f.Num), true)
+		replay := fmt.Sprintf("overread %s map field %d: %d entries of length 1 with the key length outside the entry, %d input bytes", t.Full, f.Num, N, len(bs))
+		if p {
+			out.Violate("C06", "unmarshal-panic", "panic on the over-read probe: "+firstLine(pm), replay)
+		} else if grown := ms1.TotalAlloc - ms0.TotalAlloc; grown > uint64(64*len(bs))+(1<<20) {
+			out.Violate("C06", "alloc-disproportionate", fmt.Sprintf("%d input bytes made Unmarshal allocate %d bytes (an entry's records read beyond the entry)", len(bs), grown), replay)
+		}
+		out.Count("overread_cases")
+		break
+	}
 	// allocation in proportion to the input: length / element-count claims far beyond the input size
 	for c := 0; c < 40; c++ {
 		m := &t.S.Msgs[0]
@@ -222,7 +263,7 @@ func nestBytes(s *vschema.Schema, path []int, n int) []byte {
 
 func mutate(r *vschema.Rand, bs []byte) []byte {
 	b := append([]byte(nil), bs...)
-	switch r.Intn(6) {
+	switch r.Intn(7) {
 	case 0:
 		if len(b) > 0 {
 			b = b[:r.Intn(len(b))]
@@ -260,6 +301,17 @@ func mutate(r *vschema.Rand, bs []byte) []byte {
 			g = w
 		}
 		b = append(b, g...)
+	case 5:
+		// a length-delimited record of declared length 1 holding only a key / value tag (wire type 2),
+		// followed by a length and bytes OUTSIDE the record: nothing inside may take its bytes from what
+		// follows (map entries, nested messages, packed runs)
+		b = protowire.AppendTag(b, protowire.Number(1+r.Intn(40)), protowire.BytesType)
+		b = append(b, 0x01, []byte{0x0a, 0x12, 0x08, 0x10}[r.Intn(4)])
+		n := r.Intn(40)
+		b = protowire.AppendVarint(b, uint64(n))
+		for i := 0; i < n+r.Intn(3); i++ {
+			b = append(b, byte('A'+r.Intn(3)))
+		}
 	default:
 		k := 1 + r.Intn(10)
 		b = make([]byte, k)
@@ -296,7 +348,9 @@ func decodeCase(out *Out, t *Target, g *vval.StreamGen, bs []byte, into *vval.Va
 	}
 	prop := "C03,C14,C06"
 	if malformed {
-		prop = "M"
+		// C06 quantifies over ALL byte strings: its theorems (no panic, termination, depth, linear
+		// allocation) are about the model, so the model must describe the code on malformed input too
+		prop = "C06"
 	}
 	if modelOK {
 		out.Line(prop, "dec "+t.S.ID+" 0 "+flags+" "+hx+" "+intoS, exp)
